@@ -52,6 +52,11 @@ CHECKS = {
             "Every configuration of the stated product is executed as a real session; the model predicts usage errors and the approved set, the resulting directory must equal the CLI-only session for that set, carry exactly its category markers and be byte-identical when nothing is approved.",
             "Model rules DESIGN.md A.2; tty emulated with FORCE_COLOR; quick: one program with all four categories plus externals, thorough: four programs.",
             "DESIGN.md 5/C04, A.2"),
+    "C03": ("exploration",
+            "bounded-exhaustive enumeration of same-line site pairs/triples x line styles x approved sets plus a real-plugin core (import-block shapes, newline variants, clean files, format-command); independent skeleton / masked-AST oracle",
+            "Every pair of 25 site kinds on one physical line, in six line styles and under several approved sets, is rewritten by the real code; call parentheses are located with CPython's ast (no asttokens) and everything outside them must be byte-identical (or AST-identical when the file is re-formatted).",
+            "Site kinds/styles of mc/checks/c03.py; black 26.5.1 decides clean-ness on the harness side; one known finding (CRLF/CR normalised to LF) with a residual test.",
+            "DESIGN.md 5/C03"),
 }
 
 NOT_APPLICABLE = {
